@@ -12,7 +12,7 @@ use serde::{Deserialize, Serialize};
 pub fn def() -> PropDef {
     PropDef {
         id: "C03",
-        rule: "generated primitive calls (fft/ifft: buffer of n<=~1100 shards x 1..4 blocks, pos with guard shards on both sides, size=2^a, truncated_size in {0,1,size,2^b+-1,random}, skew_delta in {0, pos+size, aligned multiples up to the table end, unaligned}; mul: all log_m classes; eval_poly: 0/1 vectors x covering truncations) executed on every engine, a third of them on buffers at non-aligned addresses ([u8; 64] has alignment 1), (Naive, NoSimd, Ssse3, Avx2, Default, Neon source on emulated intrinsics) and compared on the contract-defined outputs only; guard shards and trailing blocks must be unchanged; plus whole encode/decode rounds on every engine. non-trivial: truncated<size, or >1 block, or skew index in the top half of the table, or odd number of layers; distinct by full case",
+        rule: "generated primitive calls (fft/ifft: buffer of n<=~1100 shards x 1..4 blocks, pos with guard shards on both sides, size=2^a, truncated_size in {0,1,size,2^b+-1,random}, skew_delta in {0, pos+size, aligned multiples up to the table end, unaligned}; mul: all log_m classes; eval_poly: 0/1 mark vectors and vectors of arbitrary elements x covering truncations) executed on every engine, a third of them on buffers at non-aligned addresses ([u8; 64] has alignment 1), (Naive, NoSimd, Ssse3, Avx2, Default, Neon source on emulated intrinsics) and compared on the contract-defined outputs only; guard shards and trailing blocks must be unchanged; plus whole encode/decode rounds on every engine. non-trivial: truncated<size, or >1 block, or skew index in the top half of the table, or odd number of layers; distinct by full case",
         assumptions: &[
             "fft is compared on positions pos..pos+truncated_size for any input; ifft on all size positions only when the input beyond truncated_size is zero (otherwise only confinement and absence of panic)",
             "Neon kernels run on seven emulated intrinsics (rsv-neon/src/neon_emu.rs)",
@@ -44,7 +44,7 @@ fn parts() -> Vec<Box<dyn PartDyn>> {
             quick: 600,
             thorough: 4_000,
             shrink_iters: 60,
-            strat: evalpoly_strategy,
+            strat: evalpoly_strategy_values,
             check: check_evalpoly,
         }),
         Box::new(GenPart {
@@ -284,11 +284,23 @@ pub struct EvalPolyCase {
     pub b: u16,
     pub trunc_sel: u8,
     pub seed: u64,
+    /// 0: marks are 1 (what the decoders write); 1: every mark is a random non-zero element;
+    /// 2: marks from {1, 2, 255, 256, 32768, 65534, 65535, random} (the contract does not restrict the element values)
+    #[serde(default)]
+    pub values: u8,
 }
 
+/// 0/1 indicator vectors only (the domain of the mathematical contract, C15)
 pub fn evalpoly_strategy(_t: Tier) -> BoxedStrategy<EvalPolyCase> {
     (0u8..5, any::<u16>(), any::<u16>(), 0u8..4, any::<u64>())
-        .prop_map(|(shape, a, b, trunc_sel, seed)| EvalPolyCase { shape, a, b, trunc_sel, seed })
+        .prop_map(|(shape, a, b, trunc_sel, seed)| EvalPolyCase { shape, a, b, trunc_sel, seed, values: 0 })
+        .boxed()
+}
+
+/// also vectors of arbitrary elements (engine agreement is claimed for identical arguments, whatever they are)
+fn evalpoly_strategy_values(_t: Tier) -> BoxedStrategy<EvalPolyCase> {
+    (0u8..5, any::<u16>(), any::<u16>(), 0u8..4, any::<u64>(), prop_oneof![3 => Just(0u8), 2 => Just(1u8), 2 => Just(2u8)])
+        .prop_map(|(shape, a, b, trunc_sel, seed, values)| EvalPolyCase { shape, a, b, trunc_sel, seed, values })
         .boxed()
 }
 
@@ -362,6 +374,13 @@ pub fn evalpoly_input(c: &EvalPolyCase) -> (Box<[u16; 65536]>, usize) {
             }
         }
     }
+    if c.values != 0 {
+        const POOL: [u16; 7] = [1, 2, 255, 256, 32768, 65534, 65535];
+        let mut rng = Xs::new(c.seed ^ 0x76616c);
+        for x in v.iter_mut().filter(|x| **x != 0) {
+            *x = if c.values == 2 && rng.below(2) == 0 { POOL[rng.below(POOL.len())] } else { 1 + rng.below(65535) as u16 };
+        }
+    }
     let last = v.iter().rposition(|&x| x != 0).map(|p| p + 1).unwrap_or(0);
     (v, last)
 }
@@ -391,6 +410,7 @@ fn check_evalpoly(c: &EvalPolyCase, st: &mut Stats) -> CheckResult {
         }
     }
     st.classf("shape", c.shape);
+    st.classf("values", match c.values { 0 => "marks 0/1", 1 => "random elements", _ => "pool + random elements" });
     st.classf("trunc", if trunc == last { "tight" } else if trunc == 65536 { "full" } else { "between" });
     if last > 0 {
         st.nontrivial_case("eval_poly", c);
